@@ -312,7 +312,7 @@ func (x *xlate) expr(e ast.Expr) string {
 		}
 		switch name {
 		case "len":
-			if n := x.stateName(e.Args[0]); n != "" && x.stateVars[n].kind == "bytes" {
+			if n := x.stateName(e.Args[0]); n != "" && (x.stateVars[n].kind == "bytes" || x.stateVars[n].kind == "ints" || x.stateVars[n].kind == "bools") {
 				return fmt.Sprintf("(BitVec.ofNat 64 s.%s.length)", n)
 			}
 			return x.fail(e, "unsupported len()")
